@@ -409,7 +409,7 @@ func (v verdictParts) accept() bool { return len(v.failing()) == 0 }
 
 func TestVerifier(t *testing.T) {
 	name := t.Name()
-	hx.Check(t, 20000, 1000000, 0, func(rt *rapid.T) {
+	hx.Check(t, 40000, 1000000, 0, func(rt *rapid.T) {
 		// verification instant: 2000-01-01 + days + seconds + sub-second part
 		days := rapid.IntRange(0, 400).Draw(rt, "days")
 		secs := rapid.IntRange(0, 86399).Draw(rt, "secs")
